@@ -70,7 +70,7 @@ def service(ctx, thorough):
     common.write_ndjson(bp, bad)
     neg = ctx.tlc("ProverServiceTrace", "ProverServiceTrace.cfg", workers=1, extra_files={bp: "service_trace.ndjson"}, name="service-neg")
     if neg["ok"]:
-        raise common.MachineryError("service trace self-test: a corrupted response status was accepted")
+        ctx.deferred.append("service trace self-test: a corrupted response status was accepted")  # incomplete run (exit 2 unless a violation was reproduced); the remaining parts still run
     summary = "; ".join("%s->%s" % (x["request"], x["status"]) for x in rr.get("results", []))
     note = "beyond the listed property - ProverService: %d requests to the real handler (%s); trace %s by ProverServiceTrace (KeyPinned = FALSE, what the code does)" % (
         len(recs) // 2, summary, "accepted" if tr["ok"] else "REJECTED")
